@@ -3,7 +3,8 @@
      {id, fmt, frags, hole, via, pt: {ctx, url, slot, kind, root}, outs: [{v, c, t, b, oc, out}, ...]}
    (fmt = format of the template file: "HTML", "JS", "CSS", "JSON", "MD"; records of documents with several
    shows also carry holes: the boundaries of the other shows, whose value is always benign, and pt.prior:
-   what the renderer did before the judged show)
+   what the renderer did before the judged show; records of the documents of MC_AEBlock carry pt.block: the
+   block statements around the judged show)
    outs[j].out is the document as REALLY rendered with dictionary value v (class c) shown at the hole,
    outs[outs[j].b].out the same document rendered with the benign value of the same Go type and shape
    ("x" for strings / Stringers / errors and for the leaves of slices, maps and structs; 1, -1, 1.5,
@@ -103,7 +104,9 @@ MdRoot(pt) == IF (pt.ctx \in {"Tag", "QuotedAttr", "UnquotedAttr"}) = (pt.kind \
               THEN "none" ELSE "md-tag"
 Sig(r, j) == LET g == [fam |-> "autoescape", fmt |-> r.fmt, via |-> r.via, ctx |-> r.pt.ctx, url |-> r.pt.url, slot |-> r.pt.slot, kind |-> r.pt.kind,
                        root |-> IF r.fmt = "MD" THEN MdRoot(r.pt) ELSE r.pt.root, vclass |-> r.outs[j].c]
-             IN IF "prior" \in DOMAIN r.pt THEN g @@ [prior |-> r.pt.prior] ELSE g
+             \* documents of MC_AEBlock: the block statements around the judged show (the root cause is in their spelling and nesting)
+             IN IF "prior" \in DOMAIN r.pt THEN g @@ [prior |-> r.pt.prior]
+                ELSE IF "block" \in DOMAIN r.pt THEN g @@ [block |-> r.pt.block] ELSE g
 
 RECURSIVE SetSeq(_)
 SetSeq(S) == IF S = {} THEN <<>> ELSE LET x == CHOOSE y \in S : \A z \in S : y <= z IN <<x>> \o SetSeq(S \ {x})
